@@ -13,7 +13,8 @@ The shapes in which the statement is false in the C code (findings F177, F179 a/
 `keylessChange` (a change below a key-less list instance), `npAtRiskL` (a default-flagged non-presence container that validation
 may remove: a second instance of its schema node next to it, or it is a member of a case).
 
-`runLaw` evaluates the law along a history the way `harness/api_norm.c: histlaw` does on libyang.
+`runLaw` evaluates the law along a history the way `harness/api_norm.c: histlaw` does on libyang (`extra`: more hypothesis bits per
+input, supplied by the driver).
 Core Lean only.
 -/
 namespace LyModel.Valid
@@ -107,13 +108,13 @@ end
 def lawBit (b : Bool) : String := if b then "1" else "0"
 
 /-- the law tokens of validation number `i` on the tree `t`; `r2` = the second validation (the harness goes on with its tree) -/
-def lawObserve (X : SchemaX) (o : VOpts) (fx : Diff.Fixes) (i : Nat) (t : List DNode) (r r2 : VResult) (v v2 : Verdict) : List String :=
+def lawObserve (X : SchemaX) (o : VOpts) (fx : Diff.Fixes) (extra : List DNode → String) (i : Nat) (t : List DNode) (r r2 : VResult) (v v2 : Verdict) : List String :=
   let S := X.base
   let si := toString i
   let idem := if !v2.errs.isEmpty then "E" else if v2.diff.isEmpty then "empty" else "nonempty"
   let hyp := "sh" ++ si ++ "=" ++ lawBit (keylessChange X o t) ++ lawBit (npAtRiskL X true false t t) ++ lawBit (npAtRiskL X false true t t)
     ++ lawBit (v.lost) ++ lawBit (valdiffExcluded X o t) ++ lawBit (valdiffExact X o fx t) ++ lawBit (freshExplL t) ++ lawBit (topOnly X o t)
-    ++ lawBit ((validate X o t).evs.isEmpty && beqL (validate X o t).tree t)
+    ++ lawBit ((validate X o t).evs.isEmpty && beqL (validate X o t).tree t) ++ extra t
   ["idem" ++ si ++ "=" ++ idem, "same" ++ si ++ "=" ++ lawBit (beqL r2.tree r.tree)] ++
   (match Diff.apply S t v.diff fx with
    | .error e => ["apply" ++ si ++ "=" ++ e.name]
@@ -123,17 +124,18 @@ def lawObserve (X : SchemaX) (o : VOpts) (fx : Diff.Fixes) (i : Nat) (t : List D
   ++ [hyp]
 
 /-- run the history the way `histlaw` does: every validation is followed by a second one, and the history goes on from there -/
-def runLaw (X : SchemaX) (o : VOpts) (fx : Diff.Fixes) : (steps : List Step) → (k vi : Nat) → (t : List DNode) → List String
+def runLaw (X : SchemaX) (o : VOpts) (fx : Diff.Fixes) (extra : List DNode → String := fun _ => "") :
+    (steps : List Step) → (k vi : Nat) → (t : List DNode) → List String
   | [], _, _, _ => []
   | st :: rest, k, vi, t =>
     match st with
     | .create under sub =>
       match applyCreate X.base under sub t with
-      | some t' => runLaw X o fx rest (k + 1) vi t'
+      | some t' => runLaw X o fx extra rest (k + 1) vi t'
       | none => ["BadStep" ++ toString k]
     | .delete a =>
       match applyDelete X.base a t with
-      | some t' => runLaw X o fx rest (k + 1) vi t'
+      | some t' => runLaw X o fx extra rest (k + 1) vi t'
       | none => ["BadStep" ++ toString k]
     | .validate =>
       let r := validate X o t
@@ -142,6 +144,6 @@ def runLaw (X : SchemaX) (o : VOpts) (fx : Diff.Fixes) : (steps : List Step) →
       else
         let r2 := validate X o r.tree
         let v2 := judge X.base o.multiError r2.log
-        lawObserve X o fx vi t r r2 v v2 ++ runLaw X o fx rest (k + 1) (vi + 1) r2.tree
+        lawObserve X o fx extra vi t r r2 v v2 ++ runLaw X o fx extra rest (k + 1) (vi + 1) r2.tree
 
 end LyModel.Valid
